@@ -233,9 +233,21 @@ def unifyElemTy : List Value → Ty → Res Ty
     else if !v.ty.isDyn && !(acc.equals v.ty) then .panic "inconsistent element types"
     else unifyElemTy vs acc
 
-/-- `cty.ListVal(vals)` / `cty.ListValEmpty(ety)` as `unmarshalList` calls them -/
+/-- `cty.CanListVal` / `CanSetVal` / `CanMapVal`: the same loop, answering whether the
+constructor would accept the members -/
+def canElemTy : List Value → Ty → Bool
+  | [], _ => true
+  | v :: vs, acc =>
+    if acc.isDyn then canElemTy vs v.ty
+    else if !v.ty.isDyn && !(acc.equals v.ty) then false
+    else canElemTy vs acc
+
+/-- the end of `unmarshalList`: `ListValEmpty(ety)` for no members, an error if
+`CanListVal` refuses them (members decoded through the placeholder to different types),
+else `cty.ListVal(vals)` -/
 def listVal (ety : Ty) (vals : List Value) : Res Value :=
   if vals.isEmpty then .ok ⟨.list ety, .seq []⟩
+  else if !canElemTy vals .dyn then .err "all list elements must have the same type"
   else (unifyElemTy vals .dyn).map fun e => ⟨.list e, .seq (vals.map (·.v))⟩
 
 /-- `cty.TupleVal` / `cty.EmptyTupleVal` -/
@@ -270,9 +282,10 @@ def setFromSlice (env : JEnv) (ety : Ty) : List Payload → List Int → List Pa
       | .panic w => .panic w
       | .unmodelled => .unmodelled
 
-/-- `cty.SetVal(vals)` / `cty.SetValEmpty(ety)` as `unmarshalSet` calls them -/
+/-- the end of `unmarshalSet`: `SetValEmpty`, the `CanSetVal` error, or `cty.SetVal(vals)` -/
 def setVal (env : JEnv) (ety : Ty) (vals : List Value) : Res Value :=
   if vals.isEmpty then .ok ⟨.set ety, .sset [] []⟩
+  else if !canElemTy vals .dyn then .err "all set elements must have the same type"
   else
     match unifyElemTy vals .dyn with
     | .ok e => (setFromSlice env e (vals.map (·.v)) [] []).map fun q => ⟨.set e, .sset q.1 q.2⟩
@@ -308,14 +321,15 @@ def hasDup : List String → Bool
   | [] => false
   | k :: ks => ks.contains k || hasDup ks
 
-/-- `cty.MapVal(vals)` / `cty.MapValEmpty(ety)` as `unmarshalMap` calls them.  Go ranges
+/-- the end of `unmarshalMap`: `MapValEmpty`, the `CanMapVal` error, or `cty.MapVal(vals)`.  Go ranges
 over the map in random order; the element-type loop gives the same outcome in every
-order (all non-placeholder types equal, or a panic).  Keys are normalised when stored;
+order (all non-placeholder types equal, or `CanMapVal` refuses).  Keys are normalised when stored;
 two distinct keys with the same normal form make the stored value depend on the
 iteration order: `.unmodelled`. -/
 def mapVal (env : JEnv) (ety : Ty) (ks : List String) (vals : List Value) : Res Value :=
   let d := lastWins ks vals
   if d.1.isEmpty then .ok ⟨.map ety, .smap [] []⟩
+  else if !canElemTy d.2 .dyn then .err "all map elements must have the same type"
   else
     match unifyElemTy d.2 .dyn with
     | .ok e =>
@@ -367,11 +381,9 @@ def errOf {α β} : Res α → Res β
   | .unmodelled => .unmodelled
 
 mutual
-/-- `unmarshal(buf, t, path)` on the token tree of `buf`; `top` = "`path` is empty"
-(true for the call made by `Unmarshal`, false for every element call).  The only use of
-it: `unmarshalTuple` reports a tuple that is too short with `path[:len(path)-1]`, which
-is a slice-bounds panic when `path` is empty. -/
-def unmarshal (env : JEnv) (top : Bool) : Json → Ty → Res Value
+/-- `unmarshal(buf, t, path)` on the token tree of `buf` (the path only feeds error
+messages) -/
+def unmarshal (env : JEnv) : Json → Ty → Res Value
   | .null, t => .ok ⟨t, .null⟩
   | .obj ks vs, .dyn =>
     -- unmarshalDynamic
@@ -402,15 +414,13 @@ def unmarshal (env : JEnv) (top : Bool) : Json → Ty → Res Value
   | .arr xs, .tuple es =>
     match unmarshalZip env xs es with
     | .ok vals =>
-      if vals.length != es.length then
-        (if top then .panic "slice bounds out of range [:-1]" else .err "not enough tuple elements")
-      else .ok (tupleVal vals)
+      if vals.length != es.length then .err "not enough tuple elements" else .ok (tupleVal vals)
     | r => errOf r
   | _, .tuple _ => .err "missing expected ["
   | .obj ks vs, .object ns ts os =>
     match unmarshalAttrs env ks vs ns ts os with
     | .ok vals =>
-      let all := objectVal ns ts ks vals
+      let all := objectVal ns ts (ks.map env.norm) vals
       .ok ⟨.object ns (all.map (·.ty)) (ns.map fun _ => false), .smap ns (all.map (·.v))⟩
     | r => errOf r
   | _, .object _ _ _ => .err "missing expected {"
@@ -420,7 +430,7 @@ def unmarshal (env : JEnv) (top : Bool) : Json → Ty → Res Value
 def unmarshalAll (env : JEnv) : List Json → Ty → Res (List Value)
   | [], _ => .ok []
   | j :: js, e =>
-    match unmarshal env false j e with
+    match unmarshal env j e with
     | .ok v =>
       match unmarshalAll env js e with
       | .ok vs => .ok (v :: vs)
@@ -432,19 +442,20 @@ def unmarshalZip (env : JEnv) : List Json → List Ty → Res (List Value)
   | [], _ => .ok []
   | _ :: _, [] => .err "too many tuple elements"
   | j :: js, e :: es =>
-    match unmarshal env false j e with
+    match unmarshal env j e with
     | .ok v =>
       match unmarshalZip env js es with
       | .ok vs => .ok (v :: vs)
       | r => r
     | r => errOf r
-/-- object members in document order: the key must be an attribute of the constraint -/
+/-- object members in document order: the NFC-normalised key must be an attribute of the
+constraint (and the value is stored under the normalised key) -/
 def unmarshalAttrs (env : JEnv) : List String → List Json → List String → List Ty → List Bool → Res (List Value)
   | k :: ks, j :: js, ns, ts, os =>
-    match Ty.find k ns ts os with
+    match Ty.find (env.norm k) ns ts os with
     | none => .err "unsupported attribute"
     | some (aty, _) =>
-      match unmarshal env false j aty with
+      match unmarshal env j aty with
       | .ok v =>
         match unmarshalAttrs env ks js ns ts os with
         | .ok vs => .ok (v :: vs)
@@ -456,7 +467,7 @@ def dynValue (env : JEnv) : List String → List Json → Ty → Option (Res Val
   | k :: ks, j :: js, t =>
     match dynValue env ks js t with
     | some r => some r
-    | none => if k = "value" then some (unmarshal env true j t) else none
+    | none => if k = "value" then some (unmarshal env j t) else none
   | _, _, _ => none
 end
 
@@ -470,6 +481,17 @@ def setTy (k : String) (t : Ty) : List String → List Ty → List Ty
   | n :: ns, u :: us => if n = k then t :: us else u :: setTy k t ns us
   | _, _ => []
 
+/-- does a key after (k, t) have the same normal form and a type that is not `Equals`? -/
+def conflictWith (norm : String → String) (k : String) (t : Ty) : List String → List Ty → Bool
+  | k' :: ks, t' :: ts => (norm k' == norm k && !(t.equals t')) || conflictWith norm k t ks ts
+  | _, _ => false
+
+/-- two distinct keys with one normal form and different types: `cty.Object` keeps the type
+of whichever Go's map iteration visits last -/
+def normConflict (norm : String → String) : List String → List Ty → Bool
+  | k :: ks, t :: ts => conflictWith norm k t ks ts || normConflict norm ks ts
+  | _, _ => false
+
 mutual
 /-- `impliedTypeForTok` -/
 def impliedType (env : JEnv) : Json → Res Ty
@@ -482,8 +504,8 @@ def impliedType (env : JEnv) : Json → Res Ty
     match impliedMembers env ks vs [] [] with
     | .ok (aK, aT) =>
       -- cty.Object(atys): names normalised; a collision of normal forms is resolved by Go
-      -- map iteration order
-      if hasDup (aK.map env.norm) then .unmodelled
+      -- map iteration order, which matters only if the colliding members differ in type
+      if normConflict env.norm aK aT then .unmodelled
       else
         let r := Ty.buildFields env.norm aK aT
         .ok (.object r.1 r.2 (r.1.map fun _ => false))
@@ -520,7 +542,7 @@ def simpleMarshal (env : JEnv) (v : Value) : Res Json := marshalTop env v v.ty
 /-- `SimpleJSONValue.UnmarshalJSON` -/
 def simpleUnmarshal (env : JEnv) (j : Json) : Res Value :=
   match impliedType env j with
-  | .ok t => unmarshal env true j t
+  | .ok t => unmarshal env j t
   | r => errOf r
 
 end JsonVal
